@@ -711,7 +711,7 @@ def main():
     log("[c17] %d driver programs compiled for %d function entries (%.0fs)" % (len(jobs), len(progs), __import__("time").time() - ck.t0))
 
     # ---- cases: grid -> specification -> model -> thinning -> run -> judgement, one worker process per function ----
-    model = vlib.model_bin("c17")
+    model = os.environ.get("C17_MODEL_BIN") or vlib.model_bin("c17")   # override: try a staged model against a patched tree
     have_model = os.path.exists(model)
     if not have_model:
         ck.broken_obligation("extracted model driver extract/_build/c17 is missing (make -C /verif setup)", "")
